@@ -75,6 +75,8 @@ def extreme_queries():
         out += ["$[?@.a =~ /%s/]" % rx, "$[?@ =~ /%s/i]" % rx, "$[?@ =~ /%s/a]" % rx, "$[?@ =~ /%s/aims]" % rx, "$[?match(@.a, '%s')]" % rx.replace("'", ""), "$[?search(@, \"%s\")]" % rx.replace('"', "")]
     # flat chains of many links: operands of one && / ||, and segments of one query, are siblings, not nesting levels
     out += ["$[?" + " && ".join(["@.a"] * 600) + "]", "$[?" + " || ".join(["@.a == 1"] * 600) + "]", "$" + ".a" * 1200, "$" + "[0]" * 1200]
+    # filters nested 80 / 60 deep (below the hundred levels the claim covers): compile and evaluate, then str()
+    out += ["$" + "[?@" * 80 + ".a" + "]" * 80, "$" + "[?$" * 80 + ".a" + "]" * 80, "$" + "[?count(@" * 60 + ".a" + ") > 0]" * 60]
     # (chains of ! and parentheses are kept below a hundred links: deeper nesting is outside the claim)
     out += ["$" + ".a" * 90, "$" + "[0]" * 90, "$[?" + "!" * 90 + "@]", "$[?@" + " && @" * 90 + "]", "$[?@" + " || @ && !@" * 45 + "]",
             "$['" + "a" * 100000 + "']",
